@@ -985,6 +985,19 @@ func (x *Exec) loopHead(st *State, fr *Frame, li *loopInfo) bool {
 		} else {
 			return false // unrolled
 		}
+	} else if strings.HasPrefix(li.head.Comment, "rangeindex.loop") {
+		// explicit contract on a range loop: the implicit index invariant is added
+		has := false
+		for _, inv := range ls.Invariants {
+			if inv.Label == "range-index" {
+				has = true
+			}
+		}
+		if !has {
+			cp := *ls
+			cp.Invariants = append([]Clause{{Label: "range-index", Expr: "rangeindex >= -1", Where: "implicit"}}, ls.Invariants...)
+			ls = &cp
+		}
 	}
 	env := x.envFor(st, fr)
 	fromInside := fr.prev != nil && li.body[fr.prev.Index]
